@@ -311,6 +311,8 @@ macro_rules! each_const {
 /// run-time path: BinOperation::exec
 fn dispatch_one(op: BinOperator, kind: u8, which: u8) {
     let Some((a, b)) = operands_with(op, kind, which) else { return };
+    crate::instruction::verif_gate::allow_binops(crate::instruction::verif_gate::b(op));
+    crate::instruction::verif_gate::allow_unops(0);
     let mut interp = Interpreter::without_stdlib();
     let ins = BinOperation { lhs: Instruction::Variable(a.clone()), rhs: Instruction::Variable(b.clone()), op };
     let got = unstop(ins.exec(&mut interp));
@@ -325,6 +327,8 @@ stubbed! { pub fn t_dispatch_cmp() { each_op!(dispatch_one; Equal, NotEqual, Gre
 /// yields, or the kernel's error as a parse-time error
 fn fold_const_one(op: BinOperator, kind: u8, which: u8) {
     let Some((a, b)) = operands_with(op, kind, which) else { return };
+    crate::instruction::verif_gate::allow_binops(crate::instruction::verif_gate::b(op));
+    crate::instruction::verif_gate::allow_unops(0);
     let interp = Interpreter::without_stdlib();
     let mut lv = LocalVariables::new(&interp);
     let ins = BinOperation { lhs: Instruction::Variable(a.clone()), rhs: Instruction::Variable(b.clone()), op };
@@ -375,6 +379,8 @@ fn partial_fold(op: BinOperator, kind: u8, which: u8, const_on_right: bool) {
     let Some(cst) = const_choice(op, kind, which, const_on_right) else { return };
     let (sym, _) = operands(kind);
     let (a, b) = if const_on_right { (sym, cst) } else { (cst, sym) };
+    crate::instruction::verif_gate::allow_binops(crate::instruction::verif_gate::b(op));
+    crate::instruction::verif_gate::allow_unops(crate::instruction::verif_gate::u(UnaryOperator::Indirection));
     let mut interp = Interpreter::without_stdlib();
     let (lhs, rhs) = if const_on_right {
         (hidden(&new_cell(Type::Any, a.clone())), Instruction::Variable(b.clone()))
@@ -421,6 +427,8 @@ stubbed! { #[cfg(feature = "verif_thorough")] pub fn t_fold_left_e() { each_cons
 /// cell unchanged
 fn assign_one(op: BinOperator, kind: u8, which: u8) {
     let Some((a, b)) = operands_with(op, kind, which) else { return };
+    crate::instruction::verif_gate::allow_binops(crate::instruction::verif_gate::b(op));
+    crate::instruction::verif_gate::allow_unops(0);
     let cell = new_cell(Type::Any, a.clone());
     let mut interp = Interpreter::without_stdlib();
     let ins = BinOperation {
@@ -442,6 +450,8 @@ stubbed! { pub fn t_assign_bits() { each_op!(assign_one; AssignLShift, AssignRSh
 
 /// unary - and ! : exec and fold go to their kernels.  which: 0 = -int, 1 = -float, 2 = !int, 3 = !bool
 fn unary_one(which: u8) {
+    crate::instruction::verif_gate::allow_binops(0);
+    crate::instruction::verif_gate::allow_unops(crate::instruction::verif_gate::u(UnaryOperator::UnaryMinus) | crate::instruction::verif_gate::u(UnaryOperator::Not));
     let a = unary_operand(which < 2, which % 2 == 1);
     let native = !stubs_active();
     let (op, want) = if which < 2 {
